@@ -73,7 +73,7 @@ def idl_list(draw, nmin=5, nmax=40, kinds=('contig', 'strided', 'irregular'), ga
 
 
 def idl_form():
-    return st.sampled_from(['list', 'list', 'range', 'array'])
+    return st.sampled_from(['list', 'list', 'range', 'range1', 'array'])
 
 
 # ----------------------------------------------------------------------------------------------
